@@ -212,7 +212,7 @@ def gen_cases(tier: str, seed: int) -> List[Dict]:
         sp = P(shape, nterms=2, mode="raw", atoms=3)
         sp["view"] = view
         add("text", sp, save_kwargs={}, saver=rng.choice(["numpoly", "numpy"]), fileobj=False)
-    reps = 1 if quick else 3
+    reps = 6 if quick else 80
     for _ in range(reps):
         for shape in shapes:
             add("pickle", P(shape))
